@@ -335,6 +335,59 @@ func RulePF1(c *Ctx) {
 		r := find(v)
 		groups[r] = append(groups[r], v)
 	}
+	// effects made through a method of the same receiver count for the caller too
+	// (`return s.appendScannerHash(scanner)`): one level, the node is the call
+	direct := map[*types.Func]use{}
+	for _, u := range uses {
+		if f, ok := u.pk.TypesInfo.Defs[u.fd.Name].(*types.Func); ok {
+			direct[f] = u
+		}
+	}
+	helperOnly := map[*ast.FuncDecl]bool{} // partial by design: every caller completes the group
+	c.P.Funcs(func(pk *pkgT, fd *ast.FuncDecl) {
+		if fd.Recv == nil || len(fd.Recv.List) != 1 || len(fd.Recv.List[0].Names) != 1 {
+			return
+		}
+		info := pk.TypesInfo
+		recvObj := info.ObjectOf(fd.Recv.List[0].Names[0])
+		self, _ := info.Defs[fd.Name].(*types.Func)
+		var mine *use
+		for i := range uses {
+			if uses[i].fd == fd {
+				mine = &uses[i]
+			}
+		}
+		ast.Inspect(fd.Body, func(n ast.Node) bool {
+			call, ok := n.(*ast.CallExpr)
+			if !ok {
+				return true
+			}
+			g := Callee(info, call)
+			du, has := direct[g]
+			if !has || g == self {
+				return true
+			}
+			rid, ok := ast.Unparen(Recv(call)).(*ast.Ident)
+			if !ok || info.ObjectOf(rid) != recvObj {
+				return true
+			}
+			if mine == nil {
+				uses = append(uses, use{fd: fd, pk: pk, grow: map[*types.Var]ast.Node{}, cut: map[*types.Var]ast.Node{}})
+				mine = &uses[len(uses)-1]
+			}
+			for f := range du.grow {
+				if _, own := mine.grow[f]; !own {
+					mine.grow[f] = call
+				}
+			}
+			for f := range du.cut {
+				if _, own := mine.cut[f]; !own {
+					mine.cut[f] = call
+				}
+			}
+			return true
+		})
+	})
 	n := 0
 	for _, members := range groups {
 		if len(members) < 2 {
@@ -363,6 +416,39 @@ func RulePF1(c *Ctx) {
 				}
 				if len(have) == 0 {
 					continue
+				}
+				// an unexported method that does one member's part and is called only from
+				// methods of the same type that do the whole group is a helper, not a culprit
+				if len(miss) > 0 && !ast.IsExported(u.fd.Name.Name) {
+					if self, ok := u.pk.TypesInfo.Defs[u.fd.Name].(*types.Func); ok && !c.usedAsValue(self) {
+						sites := c.callSitesOf(self)
+						all := len(sites) > 0
+						for _, cs := range sites {
+							complete := false
+							for _, w := range uses {
+								if w.fd != cs.Decl {
+									continue
+								}
+								wm := w.grow
+								if kind.what != "appends to" {
+									wm = w.cut
+								}
+								complete = true
+								for _, f := range members {
+									if _, ok := wm[f]; !ok {
+										complete = false
+									}
+								}
+							}
+							if !complete {
+								all = false
+							}
+						}
+						if all {
+							helperOnly[u.fd] = true
+							continue
+						}
+					}
 				}
 				n++
 				k := fmt.Sprintf("%s{%s}:%s:%s", owner.Obj().Name(), strings.Join(names, ","), c.P.DeclName(u.fd), strings.Fields(kind.what)[0])
